@@ -71,10 +71,12 @@ def _axioms(z3, exprs):
                 ax.append(z3.Implies(a < b, E(a) < E(b)))
                 ax.append(z3.Implies(b < a, E(b) < E(a)))
         if len(args) <= 6:
-            for a in args:
-                for b in args:
-                    for c in args:
-                        if a.get_id() <= b.get_id():
+            uniq = {a.get_id(): a for a in args}
+            cs = list(uniq.values()) + [RV(0)]
+            for a in uniq.values():
+                for b in uniq.values():
+                    if a.get_id() <= b.get_id():
+                        for c in cs:
                             ax.append(z3.Implies(c == a + b, E(c) == E(a) * E(b)))
     if "log" in apps:
         L = T.UF["log"]
